@@ -999,6 +999,11 @@ func (conf *Conf) Validate(l logger.Writer) error {
 				})
 			}
 		}
+
+		// servers have been moved to WebRTCICEServers2.
+		// prevent them from being appended again when the configuration is validated again
+		// (this happens every time the configuration is changed through the API).
+		conf.WebRTCICEServers = nil
 	}
 
 	if conf.WebRTCAllowOrigin != nil {
